@@ -137,7 +137,73 @@ def run(repo, task):
     return rep.done()
 
 
+def run_frozen_derivations(repo, task):
+    """a STATIC container derived from a grow-only one before the growth keeps answering exactly as it did: membership, label look-up, length and
+    labels are those of the moment of derivation (C01: no later call changes what is observable through it; C02: label <-> position bijection)"""
+    import static_frame as sf
+    rep = Report('C04-go-frozen-derivations', task,
+                 rule='6 label families x cache warm/cold x {Index(go), immutable_index_filter via Series/Frame index, FrameGO.to_frame().columns, IndexHierarchy(go) with the family as outer level} '
+                      'x append/extend of 1..3 labels to the SOURCE afterwards; probes: every appended label and every original label',
+                 bound='<= 5 labels per family')
+    cases_ = []
+    for fam in families():
+        name, go_cls, st_cls, init, extra, _ = fam
+        for n_app in range(1, len(extra) + 1):
+            for warm in (False, True):
+                for how in ('append', 'extend'):
+                    for route in ('index', 'series-index', 'frame-columns', 'hierarchy'):
+                        cases_.append((name, go_cls, st_cls, init, extra[:n_app], warm, how, route))
+    for (name, go_cls, st_cls, init, extra, warm, how, route) in rep.shard(cases_):
+        rp = dict(frozen=True, family=name, n_app=len(extra), warm=warm, how=how, route=route)
+        try:
+            if route == 'hierarchy':
+                if go_cls == 'IndexGO-auto':
+                    continue
+                src = sf.IndexHierarchyGO.from_labels([(l, 0) for l in init], index_constructors=(getattr(sf, go_cls), sf.IndexGO))
+                grow = [(l, 0) for l in extra]
+                held = [(l, 0) for l in init]
+            elif go_cls == 'IndexGO-auto':
+                fg0 = sf.FrameGO(np.arange(2 * len(init)).reshape(2, len(init)))
+                src = fg0.columns
+                grow, held = list(extra), list(init)
+            else:
+                src = getattr(sf, go_cls)(init)
+                grow, held = list(extra), list(init)
+            if warm:
+                src.values, len(src)
+            if route == 'index':
+                derived = sf.Index(src) if route != 'hierarchy' and not name in ('date', 'yearmonth', 'second') else getattr(sf, st_cls)(src)
+            elif route == 'series-index':
+                derived = sf.Series(np.arange(len(held)), index=src).index
+            elif route == 'frame-columns':
+                derived = sf.FrameGO(np.arange(2 * len(held)).reshape(2, len(held)), columns=src).to_frame().columns
+            else:
+                derived = sf.IndexHierarchy(src)
+            before = (_try(lambda: len(derived)), _try(lambda: _canon(list(derived))), [_try(lambda l=l: derived.loc_to_iloc(l)) for l in held])
+            if how == 'append':
+                for l in grow:
+                    src.append(l)
+            else:
+                src.extend(sf.IndexHierarchy.from_labels(grow) if route == 'hierarchy' else list(grow))
+            after = (_try(lambda: len(derived)), _try(lambda: _canon(list(derived))), [_try(lambda l=l: derived.loc_to_iloc(l)) for l in held])
+            member = [(l, _try(lambda l=l: l in derived), _try(lambda l=l: derived.loc_to_iloc(l))) for l in grow]
+        except Exception:
+            rep.error(f'frozen-derivation harness {rp}')
+            continue
+        rep.count(distinct_key=(name, len(extra), warm, how, route), sample=rp)
+        rep.check(before == after, f'C04:frozen-derivation:{route}:changed-by-growth-of-its-source',
+                  f'a static {route} derived from a grow-only {go_cls} changed when the source was grown by {grow!r}: {str(before)[:160]} -> {str(after)[:160]}', rp)
+        bad = [(l, m, p) for l, m, p in member if m != ('E', 'False') or p[0] != 'exc']
+        rep.check(not bad, f'C04:frozen-derivation:{route}:accepts-labels-added-to-its-source',
+                  f'a static {route} derived from a grow-only {go_cls} before {how} of {grow!r} now answers for labels it never held (label, `in`, loc_to_iloc): {str(bad)[:240]}', rp)
+    return rep.done()
+
+
 def replay(repo, rp):
+    if rp.get('frozen'):
+        r = run_frozen_derivations(repo, dict(tier='quick', shard=0, nshards=1, only=rp))
+        hit = [f for f in r['failures'] if all(f.get('replay', {}).get(k) == rp.get(k) for k in ('family', 'n_app', 'warm', 'how', 'route'))]
+        return dict(outcome='fail' if hit else 'pass', detail=[f['what'][:300] for f in hit])
     for (name, go_cls, st_cls, init, extra, warm, how, ki, key, container) in cases():
         if (name, len(extra), warm, how, ki, container) == (rp['family'], rp['n_app'], rp['warm'], rp['how'], rp['ki'], rp['container']):
             import static_frame as sf
